@@ -17,7 +17,7 @@ ALGS = {
     "trace": ["Auto", "Exact", "Hutch", "HutchPP"],
     "unary": ["Auto", "Eig", "Eigh", "Lanczos", "Arnoldi"],
     "eig": ["Auto", "Eig", "Eigh", "Arnoldi", "Lanczos", "LOBPCG", "PowerIteration"],
-    "svd": ["Auto", "DenseSVD", "Lanczos", "LOBPCG"],
+    "svd": ["Auto", "DenseSVD", "Lanczos", "LanczosSVD", "LOBPCG"],     # the docstring of svd names "(Auto, SVD, LanczosSVD)": LanczosSVD is the exported class of that name
 }
 
 OMIT = "<omitted>"
